@@ -6,6 +6,7 @@ package main
 import (
 	"encoding/json"
 	"fmt"
+	"time"
 )
 
 var (
@@ -60,6 +61,8 @@ func sweepOps() []op {
 		o = append(o, op{Kind: "tokcall", From: "C", Tok: "gen", To: t, Amt: "3c"})
 	}
 	o = append(o, op{Kind: "tokcall", From: "A", Tok: "iss", To: "vault-deposit", Amt: "3c"}, op{Kind: "tokcall", From: "C", Tok: "gen", To: "reverter", Amt: "bal+1"})
+
+	o = append(o, op{Kind: "multisign"}, op{Kind: "upgrade", From: "A"}, op{Kind: "upgrade", From: "C"})
 
 	// ---- account -> confidential --------------------------------------------------------------------------
 	for _, a := range []string{"0", "1", "unit", "unit+1", "50c", "all", "bal", "bal+1"} {
@@ -117,8 +120,8 @@ func sweepOps() []op {
 			op{Kind: "lie", W: "W0", Tok: "iss", From: "A", Ring: ring, To: "W2.0", Arg: "1000c"},
 			op{Kind: "hostile", Var: "fee-uncommitted", W: "W0", Tok: "coin", Ring: ring, To: "W2.0"},
 			op{Kind: "hostile", Var: "out-of-range", W: "W0", Tok: "coin", Ring: ring, To: "W2.0"},
-			op{Kind: "hostile", Var: "aout-inflated", W: "W0", Tok: "coin", Ring: ring, To: "C", Amt: "10c", Fee: "min"},
-			op{Kind: "hostile", Var: "aout-inflated-recommit", W: "W0", Tok: "coin", Ring: ring, To: "C", Amt: "10c", Fee: "min"},
+			op{Kind: "hostile", Var: "aout-inflated", W: "W0", Tok: "coin", Ring: ring, To: "C", Amt: "1c", Fee: "min"},
+			op{Kind: "hostile", Var: "aout-inflated-recommit", W: "W0", Tok: "coin", Ring: ring, To: "C", Amt: "1c", Fee: "min"},
 			op{Kind: "hostile", Var: "aout-overflow", W: "W0", Tok: "coin", Ring: ring, To: "C", Amt: "10c", Fee: "min"},
 		)
 	}
@@ -139,6 +142,7 @@ func histAcct() []op {
 		{Kind: "call", From: "B", To: "vault-destruct:D", Amt: "1c"},
 		{Kind: "call", From: "B", To: "vault-destruct:self", Amt: "1c"},
 		{Kind: "call", From: "B", To: "issuer-issue", Amt: "0", Arg: "250c"},
+		{Kind: "xfer", From: "B", To: "Y:vault", Amt: "1c"}, // a plain transfer to what became a contract in this block
 	}
 }
 
@@ -174,10 +178,78 @@ func histMixed() []op {
 		{Kind: "ain", From: "A", Tok: "coin", Dests: []dest{{"W1", 0, "50c"}, {"W2", 1, "unit"}}, Fee: "min"},
 		{Kind: "uspend", W: "W0", Tok: "coin", Ring: 3, To: "A", Amt: "10c", Fee: "min"},
 		{Kind: "create", From: "A", Code: "reverter", Amt: "0"},
-		{Kind: "uspend", W: "W0", Tok: "coin", Ring: 1, To: "X:reverter", Amt: "10c", Fee: "min"},
+		{Kind: "uspend", W: "W0", Tok: "coin", Ring: 3, To: "Y:reverter", Amt: "10c", Fee: "min"}, // pays the contract created just before
 		{Kind: "call", From: "C", To: "vault-destruct:D", Amt: "0"},
 		{Kind: "call", From: "A", To: "vault-deposit", Amt: "3c"},
 		{Kind: "lie", W: "W0", Tok: "coin", Ring: 1, To: "W2.0", Arg: "1000c"},
+	}
+}
+
+// ---- thorough tier: chains of 3 blocks ------------------------------------------------------------------------
+
+type named struct {
+	name string
+	ops  []op
+	trie bool
+}
+
+// deep*: <= 3 blocks x <= 3 txs over 3 ops
+func deepFamilies() []named {
+	return []named{
+		{"deep-acct", []op{
+			{Kind: "call", From: "C", To: "vault-deposit", Amt: "3c"},
+			{Kind: "call", From: "B", To: "vault-destruct:self", Amt: "1c"},
+			{Kind: "xfer", From: "C", To: "D", Amt: "all"},
+		}, true},
+		{"deep-conf", []op{
+			{Kind: "ain", From: "B", Tok: "coin", Dests: []dest{{"W1", 0, "80c"}}, Fee: "min"},
+			{Kind: "uspend", W: "W0", Tok: "coin", Ring: 3, To: "W1.1", Amt: "10c", Fee: "min"},
+			{Kind: "uspend", W: "W1", Tok: "coin", Ring: 1, To: "C", Amt: "all", Fee: "min"},
+		}, false},
+		{"deep-token", []op{
+			{Kind: "ain", From: "A", Tok: "iss", Dests: []dest{{"W2", 0, "10c"}}, Fee: "min"},
+			{Kind: "uspend", W: "W0", Tok: "iss", From: "B", Ring: 3, To: "C", Amt: "all", Fee: "min"},
+			{Kind: "call", From: "B", To: "issuer-issue", Amt: "0", Arg: "250c"},
+		}, true},
+		{"deep-mixed", []op{
+			{Kind: "uspend", W: "W0", Tok: "coin", Ring: 3, To: "A", Amt: "10c", Fee: "min"},
+			{Kind: "xfer", From: "A", To: "B", Amt: "all"},
+			{Kind: "ain", From: "A", Tok: "coin", Dests: []dest{{"W1", 0, "50c"}, {"W2", 1, "unit"}}, Fee: "min"},
+		}, false},
+	}
+}
+
+// long*: <= 3 blocks x <= 2 txs over 5 ops
+func longFamilies() []named {
+	return []named{
+		{"long-acct", []op{
+			{Kind: "xfer", From: "A", To: "B", Amt: "1c"},
+			{Kind: "create", From: "A", Code: "vault", Amt: "2c"},
+			{Kind: "call", From: "C", To: "vault-deposit", Amt: "3c"},
+			{Kind: "call", From: "B", To: "vault-destruct:D", Amt: "1c"},
+			{Kind: "tokcall", From: "C", Tok: "gen", To: "vault-deposit", Amt: "3c"},
+		}, false},
+		{"long-conf", []op{
+			{Kind: "ain", From: "B", Tok: "coin", Dests: []dest{{"W1", 0, "80c"}}, Fee: "min"},
+			{Kind: "uspend", W: "W0", Tok: "coin", Ring: 1, To: "W1.1", Amt: "10c", Fee: "min"},
+			{Kind: "uspend", W: "W0", Tok: "coin", Ring: 3, To: "C", Amt: "all", Fee: "min"},
+			{Kind: "uspend", W: "W1", Tok: "coin", Ring: 3, Nin: 2, To: "W2.2", Amt: "all", Fee: "min"},
+			{Kind: "lie", W: "W1", Tok: "coin", Ring: 3, To: "W2.0", Arg: "1000c"},
+		}, true},
+		{"long-token", []op{
+			{Kind: "ain", From: "A", Tok: "iss", Dests: []dest{{"W2", 0, "10c"}}, Fee: "min"},
+			{Kind: "uspend", W: "W0", Tok: "iss", From: "A", Ring: 1, To: "W1.1", Amt: "5c", Fee: "min"},
+			{Kind: "uspend", W: "W0", Tok: "iss", From: "B", Ring: 3, To: "C", Amt: "all", Fee: "min"},
+			{Kind: "call", From: "B", To: "issuer-issue", Amt: "0", Arg: "250c"},
+			{Kind: "tokxfer", From: "A", To: "B", Tok: "iss", Amt: "5c"},
+		}, false},
+		{"long-mixed", []op{
+			{Kind: "xfer", From: "A", To: "B", Amt: "all"},
+			{Kind: "ain", From: "A", Tok: "coin", Dests: []dest{{"W1", 0, "50c"}, {"W2", 1, "unit"}}, Fee: "min"},
+			{Kind: "uspend", W: "W0", Tok: "coin", Ring: 3, To: "A", Amt: "10c", Fee: "min"},
+			{Kind: "call", From: "C", To: "vault-destruct:self", Amt: "0"},
+			{Kind: "hostile", Var: "fee-uncommitted", W: "W0", Tok: "coin", Ring: 3, To: "W2.0"},
+		}, true},
 	}
 }
 
@@ -187,12 +259,7 @@ func families(quick bool) map[string]*family {
 	sw := sweepOps()
 	addf(&family{Name: "sweep-flat", Trie: false, Ops: sw, MaxTx: 1, Depth: 1, Tampers: true, TamperDepth: 1})
 	addf(&family{Name: "sweep-trie", Trie: true, Ops: sw, MaxTx: 1, Depth: 1, Tampers: true, TamperDepth: 1})
-	type h struct {
-		name string
-		ops  []op
-		trie bool
-	}
-	hs := []h{{"hist-acct", histAcct(), false}, {"hist-conf", histConf(), true}, {"hist-token", histToken(), false}, {"hist-mixed", histMixed(), true}}
+	hs := []named{{"hist-acct", histAcct(), false}, {"hist-conf", histConf(), true}, {"hist-token", histToken(), false}, {"hist-mixed", histMixed(), true}}
 	for _, x := range hs {
 		if quick {
 			addf(&family{Name: x.name, Trie: x.trie, Ops: x.ops, MaxTx: 2, Depth: 2, Tampers: true, TamperDepth: 2})
@@ -206,6 +273,14 @@ func families(quick bool) map[string]*family {
 			}
 		}
 	}
+	if !quick {
+		for _, x := range deepFamilies() {
+			addf(&family{Name: x.name, Trie: x.trie, Ops: x.ops, MaxTx: 3, Depth: 3, Tampers: true, TamperDepth: 1, Budget: 7 * time.Minute})
+		}
+		for _, x := range longFamilies() {
+			addf(&family{Name: x.name, Trie: x.trie, Ops: x.ops, MaxTx: 2, Depth: 3, Tampers: true, TamperDepth: 2, Budget: 4 * time.Minute})
+		}
+	}
 	return m
 }
 
@@ -213,8 +288,15 @@ func familyOrder(quick bool) []string {
 	if quick {
 		return []string{"sweep-flat", "sweep-trie", "hist-acct", "hist-conf", "hist-token", "hist-mixed"}
 	}
-	return []string{"sweep-flat", "sweep-trie", "hist-acct-flat", "hist-acct-trie", "hist-conf-flat", "hist-conf-trie", "hist-token-flat", "hist-token-trie",
+	o := []string{"sweep-flat", "sweep-trie", "hist-acct-flat", "hist-acct-trie", "hist-conf-flat", "hist-conf-trie", "hist-token-flat", "hist-token-trie",
 		"hist-mixed-flat", "hist-mixed-trie"}
+	for _, x := range longFamilies() {
+		o = append(o, x.name)
+	}
+	for _, x := range deepFamilies() {
+		o = append(o, x.name)
+	}
+	return o
 }
 
 // probe: debugging aid — one block on the flat base state.
